@@ -148,7 +148,7 @@ BUILTIN_NAMES = {
 
 
 class Executor:
-    def __init__(self, program: Program, summaries=None, max_depth=8, max_paths=64, unroll_limit=12):
+    def __init__(self, program: Program, summaries=None, max_depth=14, max_paths=64, unroll_limit=12):
         self.P = program
         self.summaries = {"skchange.utils.numba.soft_import.prange": _prange_summary}
         self.summaries.update(summaries or {})
